@@ -228,7 +228,7 @@ check(
           "non-trivial = the encoding has at least one cut strictly inside a varint, string, fixed-width value, state prefix "
           "or frame header (classified by the reference encoder's field map; per-role counters in classes)."),
     quick=[unit("codec", "^TestC07BlockCuts", checks=500, timeout=900),
-           unit("codec", "^TestC07MessageCuts", checks=1200, timeout=900),
+           unit("codec", "^TestC07MessageCuts", checks=2500, timeout=900),
            unit("codec", "^TestC07LongTailStrings", checks=150, timeout=900),
            unit("codec", "^TestC07EveryKindLast", checks=1, timeout=900)],
     thorough=[unit("codec", "^TestC07BlockCuts", checks=10000, timeout=8000, shards=12),
